@@ -51,7 +51,8 @@ func Scheme(r *rand.Rand) string {
 var separators = []string{":", "://", "://", "://", "://", ":/", ":\\\\", ":///", ":////", ":/\\", ":\\/", "", "//", ":?", ":#"}
 
 var unicodeSamples = []string{"é", "ü", "ñ", "ß", "ς", "İ", "ı", "日本", "你好", "🌈", "𐍈", "\u00ad", "\u200d", "\u200c", "\u0301", "ａ", "Ａ", "１", "．", "。",
-	"≠", "≮", "≯", "א", "ا", "\ufffd", "\ufeff", "\u00a0", "\u0080", "\u009f", "\u2028", "\ufdd0", "\uffff", "\U0010ffff", "\U000e0041", "℀", "㎒", "ǆ", "ﬁ", "\u0131", "\u212a", "\u1e9e"}
+	"≠", "≮", "≯", "א", "ا", "\ufffd", "\ufeff", "\u00a0", "\u0080", "\u009f", "\u2028", "\ufdd0", "\uffff", "\U0010ffff", "\U000e0041", "℀", "㎒", "ǆ", "ﬁ", "\u0131", "\u212a", "\u1e9e",
+	"\u007f", "\u07ff", "\u0800", "\ud7ff", "\ue000", "\ufffe", "\U00010000", "\U0001ffff", "\U000fffff"} // + UTF-8 length boundaries, surrogate neighbours, noncharacters
 
 var invalidBytes = []string{"\xff", "\xc3", "\xed\xa0\x80", "\xf4\x90\x80\x80", "\xc0\xaf", "\xe2\x82", "\x80", "\xfe\xff", "\xc3\xc3"}
 
